@@ -446,7 +446,7 @@ def oracle_all(fn, arg, out):
             fails.append(('memo-inv', 'a name cache holds more than its capacity %d' % capv))
     return fails
 
-KNOWN_KINDS = {'repeat-reports': 'F19', 'fresh-reports': 'F19', 'months-lowlevel': 'F27'}
+KNOWN_KINDS = {'repeat-reports': 'F19', 'fresh-reports': 'F19', 'months-lowlevel': 'F28'}
 
 def oracle(fn, arg, out):
     fails = oracle_all(fn, arg, out)
@@ -465,9 +465,9 @@ def _sig(fid):
         ops = fix_arg(2, arg)[1]
         if fid == 'F19':   # a format.name$ call on a name with more than two commas, differing only in what is reported
             return any(o[1] in (4, 5) and any(_many_commas(k[0]) for k in ([o[2:5]] if o[1] == 4 else o[2])) for o in ops)
-        return any(_leaks_months(o) for o in ops)   # F27: an @string read by a LowLevelParser built without a macros argument
+        return any(_leaks_months(o) for o in ops)   # F28: an @string read by a LowLevelParser built without a macros argument
     return pred
-KNOWN_SIGNATURES = {'F19': _sig('F19'), 'F27': _sig('F27')}
+KNOWN_SIGNATURES = {'F19': _sig('F19'), 'F28': _sig('F28')}
 
 def replay_known(finding):
     p = finding.get('pinned')
